@@ -38,7 +38,8 @@ func init() {
 func c17Gen(tier string, r *rand.Rand) []Case {
 	modes := []string{"honest", "different-data", "scaled", "neg-both", "neg-one", "id-key1", "id-key2", "id-proofs", "id-proof1", "plusT1", "plusT2",
 		"malformed1", "short1", "long2", "other-key", "same-key", "neg-key", "swapped-proofs", "bitflip1", "flags1", "xgep2",
-		"plusT-minusT", "plusT-plusT", "same-key-same-malformed", "same-key-same-plusT", "same-key-same-offcurve", "same-key-same-valid", "same-key-two-objects-same-plusT"}
+		"plusT-minusT", "plusT-plusT", "same-key-same-malformed", "same-key-same-plusT", "same-key-same-offcurve", "same-key-same-valid", "same-key-two-objects-same-plusT",
+		"id-both", "id-both-different-data", "id-both-one-id-proof", "id-both-decoded"}
 	var cs []Case
 	reps := 1
 	if tier == "thorough" {
@@ -149,6 +150,19 @@ func c17Run(c Case) (Result, error) {
 		pk1, id1 = crypto.IdentityBLSPublicKey(), true
 	case "id-key2":
 		pk2, id2 = crypto.IdentityBLSPublicKey(), true
+	case "id-both", "id-both-different-data", "id-both-one-id-proof", "id-both-decoded":
+		// BOTH keys are the identity: e(p, O) = 1 for every p, so only the explicit refusal of identity
+		// keys stands between arbitrary proofs and acceptance
+		pk1, id1 = crypto.IdentityBLSPublicKey(), true
+		pk2, id2 = crypto.IdentityBLSPublicKey(), true
+		switch in.Mode {
+		case "id-both-different-data":
+			p2, _ = crypto.SPOCKProve(sk2, d2, hs)
+		case "id-both-one-id-proof":
+			p1 = inf
+		case "id-both-decoded":
+			pk2, _ = crypto.DecodePublicKey(crypto.BLSBLS12381, crypto.IdentityBLSPublicKey().Encode())
+		}
 	case "id-proofs":
 		p1, p2 = inf, append([]byte{}, inf...)
 	case "id-proof1":
